@@ -450,7 +450,7 @@ fn gen_queries(rng: &mut Rng, t: &Tree, root: usize) -> Vec<String> {
 }
 
 fn gen(rng: &mut Rng, i: u64) -> String {
-	if i % 97 == 96 {
+	if i % 97 == 96 || i % 97 == 48 {
 		return gen_pe(rng);
 	}
 	let mut t = Tree::default();
@@ -647,12 +647,30 @@ fn is_reachable(t: &Tree, root: usize, target: usize) -> bool {
 fn gen_pe(rng: &mut Rng) -> String {
 	let mut t = Tree::default();
 	let mut ico = None;
-	let root = gen_typed(rng, &mut t, &mut ico);
+	// one in three: an ACYCLIC chain of 20..31 directories in which every level holds 2..3 entries that all point at the
+	// next level (k^depth paths through a few hundred bytes).  Together with a data-directory Size far beyond the bytes
+	// that exist this is the shape on which a work budget taken from the declared Size instead of the section that was
+	// actually sliced never runs out.
+	let chain = rng.chance(1, 3);
+	let root = if chain {
+		let levels = rng.range(26, 31) as usize;
+		let k = rng.range(2, 5) as usize;
+		let first = t.dir();
+		let mut cur = first;
+		for _ in 1..levels {
+			let next = t.dir();
+			t.dirs[cur].ents = (0..k).map(|j| Ent { name: NameSpec::Id(1 + j as u32), tgt: Tgt::Dir(next) }).collect();
+			cur = next;
+		}
+		let d = t.data(vec![1, 2, 3, 4], 0);
+		t.dirs[cur].ents = vec![Ent { name: NameSpec::Id(1), tgt: Tgt::Data(d) }];
+		first
+	} else { gen_typed(rng, &mut t, &mut ico) };
 	let rva: u32 = *rng.pick(&[0x1000u32, 0x1000, 0x1004, 0x1002, 0x1100]);
 	let lay = t.layout(rva, 0);
 	let len = 0x1000 + 0x400 + lay.bytes.len();
 	let mut dirs = vec![(0u32, 0u32); 16];
-	let size = match rng.below(4) { 0 => lay.bytes.len() as u32 / 2, 1 => 0xFFFF_FFFF, _ => lay.bytes.len() as u32 };
+	let size = match rng.below(4) { 0 => lay.bytes.len() as u32 / 2, 1 => 0xFFFF_FFFF, 2 if chain => 0x4000_0000, _ => lay.bytes.len() as u32 };
 	dirs[2] = (rva, size);
 	let mut spec = ImgSpec { pe64: true, e_lfanew: 0x80, soh: 0x400, soi: len as u32, image_base: 0x1_4000_0000, nrva: 16, dirs, opt_size: 0, nsec_field: 1, secs: Vec::new(), checksum: 0, magic: 0x20b };
 	spec.opt_size = spec.std_opt_size();
@@ -823,7 +841,9 @@ fn observe(c: &Ctx, res: Resources<'_>, depth: u32, budget: u64, qs: &[&str]) ->
 		},
 		Err(e) => format!("e{:?}", e),
 	};
+	let t0 = cpu_ms();
 	let fsck = match res.fsck() { Ok(()) => "ok".to_string(), Err(e) => format!("e{:?}", e) };
+	assert_work("Resources::fsck", t0, c.len);
 	// number of entries the tree formatter prints (+1 for the heading): every entry starts with one of the two prefixes
 	let lines = {
 		use std::fmt::Write;
@@ -837,7 +857,9 @@ fn observe(c: &Ctx, res: Resources<'_>, depth: u32, budget: u64, qs: &[&str]) ->
 			}
 		}
 		let mut cnt = Count(0);
+		let t0 = cpu_ms();
 		let _ = write!(cnt, "{}", res);
+		assert_work("Display for Resources", t0, c.len);
 		1 + cnt.0
 	};
 	let mut qr: Vec<String> = Vec::new();
